@@ -387,11 +387,54 @@ def derived_rule(prog, res, rule='derived'):
     else:
         res.ok(rule, 'Header::nbAnalogs() = measurements / sub-frames (0 when there are none)', getter.loc(), '20 model rows, division guarded by the zero test', function=getter.sig, expr='getter')
     R = Renderer(setter)
+
+    def final_state(fn, m, k, arg):
+        """(measurements, sub-frames) after fn(arg) on a header with m measurements per frame and k sub-frames; None when the walk cannot be evaluated"""
+        st = {'fields': True}
+        try:
+            _ev, end, _u = a7.walk(fn, {'this._nbAnalogsMeasurement': m, 'this._nbAnalogByFrame': k, 'arg0': arg}, follow_loops=True, max_steps=500, state=st)
+        except a7.OutOfRange:
+            return None
+        if end != 'NEXIT':
+            return None
+        fm = st['model']
+        out = (fm.get('this._nbAnalogsMeasurement'), fm.get('this._nbAnalogByFrame'))
+        return out if all(isinstance(x, int) and not isinstance(x, bool) for x in out) else None
+    rows = [(m, k, a) for k in (0, 1, 2, 3) for c in (0, 1, 2, 5) for m in [c * k] for a in (0, 1, 3, 4)]
+    sem = []
+    for m, k, a in rows:
+        fs = final_state(setter, m, k, a)
+        sem.append((m, k, a, fs, (a * k, k)))
     asg = [(R.render(n['ch'][0]), R.render(n['ch'][1])) for n in setter.all_nodes({'BinaryOperator'}) if n['op'] == '=']
-    if asg == [('this._nbAnalogsMeasurement', '(arg0 * this._nbAnalogByFrame)')] or asg == [('this._nbAnalogsMeasurement', '(this._nbAnalogByFrame * arg0)')]:
+    if all(fs is not None for _m, _k, _a, fs, _w in sem):
+        wrong = [x for x in sem if x[3] != x[4]]
+        if wrong:
+            m, k, a, fs, w = wrong[0]
+            res.viol(rule, 'Header::nbAnalogs(n): measurements = n x sub-frames', setter.loc(), 'with %d measurements per frame and %d sub-frame(s), nbAnalogs(%d) leaves (measurements, sub-frames) = %s; expected %s' % (m, k, a, fs, w),
+                     function=setter.sig, expr='setter', sure=True)
+        else:
+            res.ok(rule, 'Header::nbAnalogs(n): measurements = n x sub-frames', setter.loc(), 'final state on %d model rows' % len(sem), function=setter.sig, expr='setter')
+    elif asg == [('this._nbAnalogsMeasurement', '(arg0 * this._nbAnalogByFrame)')] or asg == [('this._nbAnalogsMeasurement', '(this._nbAnalogByFrame * arg0)')]:
         res.ok(rule, 'Header::nbAnalogs(n): measurements = n x sub-frames', setter.loc(), function=setter.sig, expr='setter')
+    elif any(c_['callee'].get('inrepo') for c_ in setter.calls()):
+        res.undecided(rule, 'Header::nbAnalogs(n): measurements = n x sub-frames', setter.loc(), 'the setter works through calls whose outcome cannot be evaluated on the models [shape not read by the rule]', function=setter.sig, expr='setter')
     else:
         res.viol(rule, 'Header::nbAnalogs(n): measurements = n x sub-frames', setter.loc(), 'setter does %s' % asg, function=setter.sig, expr='setter')
+    # the sub-frame setter, on the same models: the channel count (measurements / sub-frames, 0 when there are none) is kept
+    sem2 = []
+    for m, k, a in rows:
+        ch_old = 0 if k == 0 else m // k
+        sem2.append((m, k, a, final_state(sub, m, k, a), (ch_old * a, a)))
+    if all(fs is not None for _m, _k, _a, fs, _w in sem2):
+        wrong = [x for x in sem2 if x[3] != x[4]]
+        nm = 'Header::nbAnalogByFrame(n) keeps the channel count (rescales the measurements per frame)'
+        if wrong:
+            m, k, a, fs, w = wrong[0]
+            res.viol(rule, nm, sub.loc(), 'with %d measurements per frame and %d sub-frame(s), nbAnalogByFrame(%d) leaves (measurements, sub-frames) = %s; expected %s (the channel count is kept)' % (m, k, a, fs, w),
+                     function=sub.sig, expr='subframe-setter', sure=True)
+        else:
+            res.ok(rule, nm, sub.loc(), 'final state on %d model rows: channel count kept, measurements rescaled' % len(sem2), function=sub.sig, expr='subframe-setter')
+        return
     # sub-frame setter rescales: reads the channel count before the store, stores, then re-applies the count
     g = sub.events()
     R = Renderer(sub)
